@@ -86,6 +86,14 @@ S["shift2_dense"] = dict(until=5, sims=[T("A"), T("B")],
 S["two_delays_same_pair"] = dict(until=3, sims=[T("A"), H("B", next_default=1)],
                                  conns=[C("A", "B", "po", "mi"),
                                         C("A", "B", "po", "ti", shift=1)])
+S["two_trigger_delays"] = dict(until=3, sims=[E("A", init_event=0, emit_default=0, next=[1, 1]),
+                                             E("B", emit_default=0), E("Cc")],
+                               conns=[C("A", "B", "eo", "ti"), C("A", "B", "eo", "ti2", shift=1),
+                                      C("B", "Cc", "eo", "ti")])
+S["two_trigger_delays_rev"] = dict(until=3, sims=[E("A", init_event=0, emit_default=0, next=[1, 1]),
+                                                 E("B", emit_default=0), E("Cc")],
+                                   conns=[C("A", "B", "eo", "ti2", shift=1), C("A", "B", "eo", "ti"),
+                                          C("B", "Cc", "eo", "ti")])
 S["maxadv_inflight"] = dict(until=3, sims=[E("Cc", init_event=0, emit_default=0), E("D", init_event=0)],
                             conns=[C("Cc", "D", "eo", "ti", shift=1)])
 # ---- mixed inputs -------------------------------------------------------------------
@@ -110,6 +118,20 @@ S["weak_loop"] = dict(until=2, max_loop=5, groups=G1,
                       sims=[E("A", group="g", init_event=0, emit=[0, 0], next=[None, None, 1]),
                             E("B", group="g", emit_default=0)],
                       conns=[C("A", "B", "eo", "ti"), C("B", "A", "eo", "ti", weak=True)])
+S["weak_loop_future"] = dict(until=3, max_loop=5, groups=G1,
+                             sims=[E("A", group="g", init_event=0, emit=[0, 1, 0]),
+                                   E("B", group="g", emit_default=0),
+                                   H("O", group="g", next_default=1)],
+                             conns=[C("A", "B", "eo", "ti"), C("B", "A", "eo", "ti", weak=True),
+                                    C("A", "O", "eo", "ti")])
+# a member of the loop's group is fed directly and via a simulator outside the group (F21)
+S["group_reentry"] = dict(until=2, max_loop=5, groups=G1,
+                          sims=[E("A", group="g", init_event=0, emit=[0, 0], next=[None, None, 1]),
+                                E("B", group="g", emit_default=0), E("D", group="g"),
+                                E("M", emit_default=0)],
+                          conns=[C("A", "B", "eo", "ti"), C("B", "A", "eo", "ti", weak=True),
+                                 C("A", "D", "eo", "ti"), C("B", "M", "eo", "ti"),
+                                 C("M", "D", "eo", "ti2")])
 S["weak_loop_out"] = dict(until=2, max_loop=5, groups=G1,
                           sims=[H("A", group="g", emit=[0, 0], next=[None, None, 1]),
                                 E("B", group="g", emit_default=0), T("D")],
@@ -174,6 +196,18 @@ S["async_in_group"] = dict(
     sims=[T("A", group="g"),
           T("M1", 1, group="g", **{"async": {"0": [("set", "A.e", "mi")], "1": [("set", "A.e", "mi")]}})],
     conns=[dict(src="A", dst="M1", sattr="po", dattr="mi", **{"async": True})])
+
+# ---- "+X" variants: an unconnected simulator whose steps finish at arbitrary moments and make
+# mosaik recompute everybody's progress while others are between step() and get_data() ----------
+S["anc_getdata_inflight"] = dict(until=2, sims=[T("A"), E("B", emit_default=0), E("Cc"), T("X")],
+                                 conns=[C("A", "B", "po", "ti"), C("B", "Cc", "eo", "ti")])
+S["anc_getdata_inflight_T"] = dict(until=3, sims=[T("A"), H("B"), T("D"), T("X")],
+                                   conns=[C("A", "B", "po", "ti"), C("B", "D", "po", "mi")])
+for _n in ("T_to_H_trigger", "E_chain3_self", "future_out", "weak_loop", "shift_cycle",
+           "hyb_mixed_inputs", "weak_loop_out"):
+    _b = S[_n]
+    S[_n + "_X"] = dict(_b, until=min(_b["until"], 2 if len(_b["sims"]) > 2 else 3),
+                        sims=list(_b["sims"]) + [T("X")])
 
 EXPECT_LOOP_ERROR = {n for n, s in S.items()
                      if n.startswith("loop_") and (n == "loop_unsettled" or
